@@ -112,7 +112,7 @@ PROPS["C12"] = {
     "second_process": "reverse",
     "gens": lambda tier: [{"topic": "pure", "n": q(tier, 400, 8000)}, {"topic": "bigq", "n": q(tier, 8, 60)},
                           {"topic": "bigp", "n": q(tier, 3, 6)}],
-    "rules": ["den", "print_differs", "opt_panic", "match_panic", "reopt_differs"],
+    "rules": ["den", "print_differs", "opt_panic", "match_panic", "reopt_differs", "load_paths_differ"],
     "chunk": 60,
 }
 
